@@ -98,6 +98,7 @@ class Chip(object):
     def __init__(self, x, y, ncores=18):
         self.x, self.y = x, y
         self.mem = {}
+        self.big_fills = []         # (start, end, word) of long word fills
         self.writes = []            # (addr, length) of every memory write
         self.ncores = ncores
         self.core_state = [RUN] + [IDLE] * (ncores - 1)
@@ -121,7 +122,42 @@ class Chip(object):
         self.iptags = {}
 
     # -- memory
+    BIG_FILL = 1 << 16      # word fills at least this long are kept sparsely
+
+    def big_fill(self, a, n, word):
+        """sark_word_set over a long range, kept as one record (the memory
+        itself holds one entry per byte that was ever written)"""
+        m = self.mem
+        if len(m) < n:
+            for k in [k for k in m if a <= k < a + n]:
+                del m[k]
+        else:
+            for k in range(a, a + n):
+                m.pop(k, None)
+        self.big_fills.append((a, a + n, struct.pack("<I", word)))
+        self.writes.append((a, n))
+
     def rd(self, a, n):
+        if self.big_fills and any(s < a + n and a < e
+                                  for s, e, _ in self.big_fills):
+            out = bytearray(n)
+            for s, e, w in self.big_fills:       # later fills win
+                lo, hi = max(a, s), min(a + n, e)
+                if lo < hi:
+                    k = (lo - s) % 4
+                    rep = (w[k:] + w[:k]) * ((hi - lo) // 4 + 2)
+                    out[lo - a:hi - a] = rep[:hi - lo]
+            m = self.mem
+            if len(m) < n:
+                for k, v in m.items():
+                    if a <= k < a + n:
+                        out[k - a] = v
+            else:
+                for i in range(n):
+                    v = m.get(a + i)
+                    if v is not None:
+                        out[i] = v
+            return bytes(out)
         m = self.mem
         RTR_COPY = self.rtr_copy
         if a + n <= RTR_COPY or a >= RTR_COPY + 16 * 1024:
@@ -379,7 +415,10 @@ class Machine(object):
                 self.perr("fill addr %#x len %d not word aligned" % (a1, a3))
                 return RC_ARG, (), b""
             # sark_word_set: the 32-bit value is stored to every word
-            chip.wr(a1, struct.pack("<I", a2) * (a3 // 4))
+            if a3 >= chip.BIG_FILL:
+                chip.big_fill(a1, a3, a2)
+            else:
+                chip.wr(a1, struct.pack("<I", a2) * (a3 // 4))
             return OK, (), b""
         if cmd in (CMD["link_read"], CMD["link_write"]):
             if a3 > 5 or a1 % 4 or a2 % 4 or a2 > self.buffer_size:
